@@ -38,6 +38,7 @@ type Config struct {
 	ManifestSize   int64
 	Recycle        bool
 	Concurrency    int
+	MemStop        int  // MemTableStopWritesThreshold (0 = default 2); > 2 lets several flushable ingests queue up
 	Remote         bool // remote (in-memory) object storage configured: external ingestion possible
 }
 
@@ -129,6 +130,9 @@ func (r *Runner) MakeOptions() *pebble.Options {
 	o.BlockPropertyCollectors = []func() pebble.BlockPropertyCollector{sstable.NewTestKeysBlockPropertyCollector}
 	if c.MemTableSize != 0 {
 		o.MemTableSize = c.MemTableSize
+	}
+	if c.MemStop != 0 {
+		o.MemTableStopWritesThreshold = c.MemStop
 	}
 	if c.L0Threshold != 0 {
 		o.L0CompactionThreshold = c.L0Threshold
